@@ -101,6 +101,14 @@ CLAIMS["C04"] = {
     "design_ref": "DESIGN.md §5 C04",
 }
 
+CLAIMS["C07"] = {
+    "technique": "static analysis: guard dominance of function_visible over both dispatch sites of apply_low, provenance of the flags operand, constant-mask check, hit/miss sibling agreement on the apply cache (negative entries only under lookup==NULL, field-set agreement), who-may-write",
+    "text": "Decides the visibility and cache mechanism structurally: no path of apply_low reaches the interpreter without function_visible(origin, flags of the object's own program) being true, call_other is refused for static/private/protected and nothing else is refused; "
+            "the cache's hit test compares id, program and name, a negative entry is stored only when the lookup found nothing (so an earlier refused call cannot change a later verdict), and the hit path reads only fields the miss path writes. "
+            "Most-derived resolution under inheritance (find_function order, offsets) and compile-time overloading are not decided.",
+    "design_ref": "DESIGN.md §5 C07",
+}
+
 NOT_APPLICABLE = {
     "C18": "Line/trace correctness is a value-level question about run-length tables (encode in the code generator, decode in find_line); no clause of it is visible in the shape of the code, so static analysis gives no verdict (DESIGN.md §6).",
 }
